@@ -114,6 +114,16 @@ CHECKS = {
             "CHORUS/NuTeV y+ negative) x heavyness x TMC mode x scheme a real run requests the cross section together with its structure "
             "functions and the residual XS - (a F2 + b FL + c xF3) must vanish entry-wise for every order key; TLC recomputes (a,b,c).",
             "Trusted: TLC, numpy, the numerical values of pi, G_F and the unit conversion (atoms).", "DESIGN.md 7/C11"),
+    "C09": ("model_checking",
+            "TLC threshold theorems on a dyadic lattice (Thresholds.tla) + real FFNS runs at lattice points exactly on / one ulp below / "
+            "beside the thresholds + TLC trace validation of exact zeros, the 'missing' channel and the slow-rescaling point",
+            "TLC proves hadronic = partonic pair threshold, class consistency, monotonicity and the slow-rescaling condition in exact "
+            "rationals on a lattice containing points exactly on the threshold; real runs at those exact-float points (and one ulp below) "
+            "must give exactly 0.0 in every non-heavy-parton row of F2/FL_charm at every order iff the spec says empty, light observables "
+            "(NNLO 'missing' channel) must not change when the charm mass is raised below threshold, the massive gluon/singlet integrands "
+            "are sampled on both sides of zmax, and CC F2/F3_charm/bottom rows are zero iff chi >= 1 with the LO row in the direction "
+            "p_j(chi) for the chi the spec computes.",
+            "Trusted: TLC, numpy, eko basis functions, math.nextafter.", "DESIGN.md 7/C09"),
 }
 
 PENDING = {}
